@@ -26,11 +26,15 @@ class _fs:
         syx.open = self.fs.open
         return self.fs
 
-    def __exit__(self, *a):
+    def __exit__(self, etype, e, tb):
         if self.had:
             self.syx.open = self.old
         else:
             del self.syx.open
+        if etype is not None and issubclass(etype, FileNotFoundError) and getattr(e, 'filename', None) is not None:
+            # the code went to the real file system (not through open() of mido.syx): outside the double
+            from pysym.core import Unmodelled
+            raise Unmodelled('file access that bypasses the in-memory file system double: %r' % (e,))
         return False
 
 
